@@ -205,10 +205,21 @@ func (p *Prog) VerifyFunction(fn *ssa.Function, fc *FuncContract, split *int, wa
 	}
 	pinv := p.CS.PluginInv[pkgPath]
 	isSetup := isSetupFunc(fn)
+	if isSetup {
+		// inductive invariants hold for the zero globals and are preserved by every successful setup
+		for _, cl := range pinv {
+			if hasTag(cl.Tags, "inductive") && hasTag(cl.Tags, fn.Name()) {
+				if !assumeReq(cl, pbind, p.CS.InitSpec[pkgPath]) {
+					return e
+				}
+				e.assumedUsed["inductive plugin invariant of "+pkgPath+" assumed at setup entry (holds for zero-valued globals)"] = true
+			}
+		}
+	}
 	if len(tcs) > 0 {
 		// handlers run after a successful setup: the plugin invariants hold
 		for _, cl := range pinv {
-			if len(cl.Tags) > 0 && !hasTag(cl.Tags, fn.Name()) {
+			if len(scopeTags(cl.Tags)) > 0 && !hasTag(cl.Tags, fn.Name()) {
 				continue // invariant scoped to other setup/handler functions
 			}
 			if !assumeReq(cl, pbind, p.CS.InitSpec[pkgPath]) {
@@ -297,7 +308,7 @@ func (p *Prog) VerifyFunction(fn *ssa.Function, fc *FuncContract, split *int, wa
 		if isSetup && len(r.results) == 2 {
 			// a setup function that succeeds establishes the plugin invariants (C19)
 			for i, cl := range pinv {
-				if len(cl.Tags) > 0 && !hasTag(cl.Tags, fn.Name()) {
+				if len(scopeTags(cl.Tags)) > 0 && !hasTag(cl.Tags, fn.Name()) {
 					continue
 				}
 				ec := &EvalCtx{e: e, st: r.st, old: fr.oldSt, fr: fr, bind: map[string]TV{}, spec: p.CS.InitSpec[pkgPath], atReturn: true}
@@ -538,4 +549,14 @@ func isSetupFunc(fn *ssa.Function) bool {
 	}
 	n := nt.Obj().Name()
 	return strings.HasSuffix(nt.Obj().Pkg().Path(), "/handler") && (n == "Handler4" || n == "Handler6")
+}
+
+func scopeTags(tags []string) []string {
+	var out []string
+	for _, t := range tags {
+		if t != "inductive" {
+			out = append(out, t)
+		}
+	}
+	return out
 }
